@@ -84,6 +84,11 @@ def cases(tier, seed):
             [[2, 2, 2]], [[5, 4, 3, 2, 1, 0]]]
     for r in rich:
         yield dict(kind='rich', alpha=6, slabs=r)
+    # halo light-cone layout: all sequences of <=3 halos over (count, gap) variants x all row masks x subsample options
+    lcv = [(0, 0), (1, 0), (2, 1), (1, 1)] if tier == 'quick' else [(0, 0), (1, 0), (2, 1), (1, 1), (3, 0), (0, 1)]
+    for n in range(0, 4):
+        for combo in itertools.product(range(len(lcv)), repeat=n):
+            yield dict(kind='lc', halos=[lcv[i] for i in combo])
     # conformance through real ASDF files
     nconf = 4 if tier == 'quick' else 16
     for r in (rich * 2)[:nconf]:
@@ -210,8 +215,72 @@ def expect_cols(o):
     return s
 
 
+def run_lc(case, with_masks=False):
+    """light-cone layout: the slice addressed by the stored npstartA/npoutA of every (kept) row holds that halo's records"""
+    from vf import catgen, refs
+    halos = [dict(nA=n, gA=g) for n, g in case['halos']]
+    if not halos:
+        return dict(problems=[], evals=0, nt=[])
+    cat = catgen.LCCatalog(halos)
+    d = catgen.mount_lc(_ENV, cat)
+    probs = []
+    nl = 0
+    H = len(halos)
+    subs = [dict(A=True, pos=True), dict(A=True, pos=True, vel=True, pid=True), True, dict(A=True, pid=True), dict(B=True, A=True, rv=True)]
+    for si, sub in enumerate(subs):
+        for fields in (['N', 'npstartA', 'npoutA'], 'DEFAULT_FIELDS', ['npoutA', 'npstartA', 'pos_interp', 'x_L2com']):
+            for mask in [None] + (list(itertools.product((True, False), repeat=H)) if with_masks else []):
+                if mask is not None and (si > 1 or fields == 'DEFAULT_FIELDS'):
+                    continue
+                filt = None
+                if mask is not None:
+                    filt = (lambda h, m=mask: np.array(m, dtype=bool))
+                try:
+                    c = _ENV.load(d, subsamples=(dict(sub) if isinstance(sub, dict) else sub), fields=fields if isinstance(fields, str) else list(fields), filter_func=filt)
+                except Exception as e:
+                    import traceback
+                    probs.append(dict(sig='lc:load-raises:' + type(e).__name__, msg=f'halos={case["halos"]} subs={sub} fields={fields} mask={mask}: ' + ''.join(traceback.format_exception(e))[-900:]))
+                    continue
+                nl += 1
+                if not c.halo_lc:
+                    probs.append(dict(sig='lc:not-detected', msg='light-cone layout not detected from the path'))
+                kept = [i for i in range(H) if mask is None or mask[i]]
+                if len(c.halos) != len(kept):
+                    probs.append(dict(sig='lc:rows', msg=f'{len(c.halos)} rows, expected {len(kept)}'))
+                    continue
+                st = np.asarray(c.halos['npstartA']).astype(np.int64)
+                no = np.asarray(c.halos['npoutA']).astype(np.int64)
+                for r, hi in enumerate(kept):
+                    own = cat.model[hi]
+                    sl = slice(int(st[r]), int(st[r] + no[r]))
+                    if no[r] != len(own) or sl.stop > len(c.subsamples):
+                        probs.append(dict(sig='lc:ownership', msg=f'halos={case["halos"]} subs={sub} mask={mask} row {r}: npout {no[r]} vs {len(own)} owned, table {len(c.subsamples)}'))
+                        break
+                    if 'pos' in c.subsamples.colnames and own:
+                        ser = [catgen.serial_of_pos_x(x, cat.box) for x in np.asarray(c.subsamples['pos'][sl])[:, 0]]
+                        if ser != own:
+                            probs.append(dict(sig='lc:ownership', msg=f'halos={case["halos"]} subs={sub} mask={mask} row {r}: pos names {ser}, expected {own}'))
+                            break
+                    if 'pid' in c.subsamples.colnames and own:
+                        ser = [catgen.serial_of_pid(p) for p in np.asarray(c.subsamples['pid'][sl])]
+                        if ser != own:
+                            probs.append(dict(sig='lc:ownership', msg=f'halos={case["halos"]} subs={sub} mask={mask} row {r}: pid names {ser}, expected {own}'))
+                            break
+                    if 'vel' in c.subsamples.colnames and own:
+                        rv = np.array([catgen.rv_record(s) for s in own], dtype=np.int32).reshape(-1, 3)
+                        if not refs.ulp_close(np.asarray(c.subsamples['vel'][sl]), refs.rvint_ref(rv, cat.box)[1], 2, np.float32).all():
+                            probs.append(dict(sig='lc:ownership', msg=f'row {r}: vel mismatch'))
+                            break
+    seen = set()
+    probs = [p for p in probs if not (p['sig'] in seen or seen.add(p['sig']))]
+    nt = [('lc', case['halos'])] if any(g for n, g in case['halos']) and any(n == 0 for n, g in case['halos']) else []
+    return dict(problems=probs, evals=nl, nt=nt, extra=dict(lc_loads=nl))
+
+
 def run(case):
     from vf import catgen
+    if case['kind'] == 'lc':
+        return run_lc(case)
     alpha = V6 if case['alpha'] == 6 else V18
     slabs = [[alpha[i] for i in s] for s in case['slabs']]
     cat = catgen.Catalog(slabs)
